@@ -2254,8 +2254,14 @@ func (s *Sim) stdModel(name string) stdHandler {
 		}
 	case "(*sync.Cond).Wait":
 		return one(func(fr *Frame, st *State, in ssa.Instruction, a []Val) { s.condWait(fr, st, a[0], in) })
-	case "(*sync.Cond).Broadcast", "(*sync.Cond).Signal":
+	case "(*sync.Cond).Broadcast":
 		return one(func(fr *Frame, st *State, in ssa.Instruction, a []Val) { s.broadcast(fr, st, a[0], in) })
+	case "(*sync.Cond).Signal":
+		// every cond of this package has several kinds of waiters (Get waiters, the cleaner, Close): waking
+		// one of them does not announce a state change to the others, so Signal never clears the dirty bit
+		return one(func(fr *Frame, st *State, in ssa.Instruction, a []Val) {
+			s.ob("S", in.Parent(), "signal:"+condName(a[0]), false, "Signal wakes a single waiter; the conds of this package are shared by waiters of different kinds (a blocked Get, the cleaner, Close), so a state change must be announced with Broadcast", in)
+		})
 	case "(*sync.Once).Do":
 		return func(fr *Frame, st *State, in ssa.Instruction, c *ssa.CallCommon, a []Val, cv ssa.Value) []*State {
 			skip := st.clone()
